@@ -274,7 +274,12 @@ func (c *VerifChain) Next() (final bool, err error) {
 }
 
 // Ephemeral returns the member's real ephemeral public key message (after InitiateCheap in state 1).
-func (c *VerifChain) Ephemeral() interface{} { return c.eph }
+func (c *VerifChain) Ephemeral() interface{} {
+	if c.eph == nil {
+		return nil
+	}
+	return c.eph
+}
 
 // VerifC08Standin builds a message of the type sent by state t (1, 3..11) from
 // `sender` in `session`; eph supplies real ephemeral keys for type 1 (any
